@@ -1,5 +1,6 @@
 import ArgMapper.Model.Conc
 import ArgMapper.Generated.Effects
+import ArgMapper.Proofs.Conc
 /-!
 # C11 (concurrent clause) and C12 — run-once under concurrency; sharing between concurrent calls
 
@@ -21,27 +22,31 @@ most once, and any two threads that have returned hold the same result -/
 theorem once_concurrent (n : Nat) (sched : List Nat) :
     (run true n sched).execs ≤ 1 ∧
     ∀ i j r r', result (run true n sched) i = some r → result (run true n sched) j = some r' → r = r' := by
-  sorry
+  have hi := inv_run n sched
+  refine ⟨hi.execs, ?_⟩
+  intro i j r r' h1 h2
+  rw [result_eq_one hi h1, result_eq_one hi h2]
 
 /-- every thread that is scheduled often enough returns: no deadlock (the lock is always released) —
 stated as: whenever the lock is held, its holder is a live thread that is not blocked -/
 theorem lock_holder_progresses (n : Nat) (sched : List Nat) (t : Nat)
     (h : (run true n sched).lock = some t) :
     ∃ pc, (run true n sched).pcs[t]? = some pc ∧ pc ≠ .start ∧ (∀ r, pc ≠ .done r) := by
-  sorry
+  obtain ⟨pc, hpc, ha⟩ := (inv_run n sched).holder t h
+  exact ⟨pc, hpc, ha.1, ha.2⟩
 
 /-- **counterexample (finding F7)** — the unsynchronised protocol: two threads, both see an empty memo,
 both execute, and they return different results -/
 theorem counterexample_two_first_uses :
     (run false 2 [0, 1, 0, 1, 0, 1, 0, 1, 0, 1]).execs = 2 ∧
     result (run false 2 [0, 1, 0, 1, 0, 1, 0, 1, 0, 1]) 0 ≠ result (run false 2 [0, 1, 0, 1, 0, 1, 0, 1, 0, 1]) 1 := by
-  sorry
+  decide
 
 /-- **C12 (lock discipline ⇒ race freedom)** — if every access to a written location holds that
 location's lock, no two threads race -/
 theorem guarded_race_free (guard : String → String) (progs : List (List Access)) (hg : Guarded guard progs)
     (p q : List Access) (hp : p ∈ progs) (hq : q ∈ progs) : ¬ Race p q := by
-  sorry
+  exact guarded_no_race guard progs hg p q hp hq
 
 /-- the accesses one call performs on shared state, as extracted from the sources: the run-once lock
 is the only lock -/
@@ -53,12 +58,20 @@ def callAccesses : List Access :=
 and every read of such a location, happens under the run-once lock (re-checked by evaluation against
 the table produced from `/repo` on this run) -/
 theorem effects_guarded : ∀ a ∈ Generated.sharedAccesses, a.locked = true := by
-  sorry
+  decide
 
 /-- … hence any number of concurrent calls, each performing (a subset of) these accesses, are free of
 data races on the modelled shared state -/
 theorem C12_race_free (k : Nat) (p q : List Access)
     (hp : p ∈ List.replicate k callAccesses) (hq : q ∈ List.replicate k callAccesses) : ¬ Race p q := by
-  sorry
+  have hall : ∀ a ∈ callAccesses, a.lock = some "onceMu" := by
+    intro a ha
+    simp only [callAccesses, List.mem_map] at ha
+    obtain ⟨b, hb, rfl⟩ := ha
+    simp [effects_guarded b hb]
+  rw [List.mem_replicate] at hp hq
+  obtain ⟨_, rfl⟩ := hp
+  obtain ⟨_, rfl⟩ := hq
+  exact common_lock_no_race "onceMu" _ _ hall hall
 
 end ArgMapper.C12
